@@ -13,7 +13,7 @@ Open Scope Z_scope.
    unsettled hand, table neither closed nor released, blinds set, not a break *)
 Theorem C07_count_and_open_guard : forall min s op o,
   l_gc (lstep min s op o) = l_gc s \/
-  (l_gc (lstep min s op o) = l_gc s + 1 /\ (op = LFinish \/ op = LTimeout) /\
+  (l_gc (lstep min s op o) = l_gc s + 1 /\ (op = LFinish \/ op = LTimeout \/ op = LRetry) /\
    l_has_game s = false /\ l_released s = false /\ status_eqb (l_status s) SClosed = false /\
    is_set (l_blind s) = true /\ is_break (l_blind s) = false /\ l_status (lstep min s op o) = SPlaying).
 Proof. exact count_only_by_open. Qed.
